@@ -33,6 +33,7 @@ func init() {
 			{ID: "C05-R7", Title: "module constructors hand out fresh objects: no state shared between evaluations (shared with C11-R2)", Floor: 10, Run: c11r2},
 			{ID: "C05-R8", Title: "collected map keys are sorted at once", Floor: 1, Run: collectedMapKeysAreSorted},
 			{ID: "C05-R9", Title: "reflected map walks are order independent", Floor: 0, Run: reflectedMapWalksAreOrderIndependent},
+			{ID: "C05-R10", Title: "sort orders are total over floats", Floor: 1, Run: sortOrdersAreTotalOverFloats},
 		},
 	})
 }
@@ -454,12 +455,10 @@ func keyedUpdate(fn *types.Func) (bool, string) {
 		return true, "reflect SetMapIndex writes one key"
 	case core.IsMethod(fn, "reflect", "Value", "Set"):
 		return true, "reflect Set on the field selected by the key"
-	case core.IsMethod(fn, pkgPath("modules/http"), "HttpRequest", "AddHeader"):
-		return true, "AddHeader appends under one header name"
 	case core.IsMethod(fn, "net/url", "Values", "Add"), core.IsMethod(fn, "net/url", "Values", "Set"):
 		return true, "url.Values keyed by parameter name (Encode sorts by key)"
-	case core.IsMethod(fn, "net/http", "Header", "Add"), core.IsMethod(fn, "net/http", "Header", "Set"):
-		return true, "http.Header keyed by name"
+	// (net/http.Header is NOT keyed by the name it is given: names are
+	// canonicalised, so "x-a" and "X-A" are one slot, and Add appends)
 	}
 	return false, ""
 }
